@@ -14,7 +14,7 @@ import re
 import token
 
 from sa.model import AnalysisError, walk_shallow, dotted, norm
-from sa.util import regex_uses, cfg_of, shallow_calls, const_str, guarded_by_edge, strip_not
+from sa.util import local_defs, regex_uses, cfg_of, shallow_calls, const_str, guarded_by_edge, strip_not
 
 AUG = {'+=', '-=', '*=', '/=', '//=', '%=', '@=', '&=', '|=', '^=', '>>=', '<<=', '**='}
 
@@ -83,6 +83,41 @@ def check(run, model, tier):
             exp = (0, 0) if lab == keep_label else (1, 1)
             run.inst('PROTO.keep-lock-branch', get, '%s branch releases %s' % (lab, exp), c == exp,
                      '' if c == exp else 'release count on the %s branch is %s, expected %s' % (lab, c, exp), node=ctest.ast, obligation=True)
+    # ---- where the classified text comes from: the caller's *current* source line.  inspect.getframeinfo / getsourcelines / findsource revalidate the line cache against the
+    # file on every call (linecache.checkcache); a bare linecache.getline does not, and hands out the text the module had when it was first read
+    run.rule('PROTO.source-line', 'the line given to the classifier is the caller\'s current source line: taken from inspect.getframeinfo(<caller frame>) (or from linecache after checkcache)')
+    cargs = []
+    for t_ in g.nodes:
+        for c_ in (t_.calls() if t_.kind not in ('entry', 'exit', 'xexit', 'def') else []):
+            if isinstance(c_.func, ast.Attribute) and dotted(c_.func.value) == get.params[0] and c_.func.attr == classifier.name and c_.args:
+                cargs.append(c_.args[0])
+    srcs = set()
+    gdefs_ = local_defs(get.node)
+
+    def sources(e, depth=5):
+        for x in ast.walk(e):
+            if isinstance(x, ast.Call):
+                fn_ = norm(x.func)
+                if fn_.startswith('inspect.') or fn_.startswith('linecache.') or fn_ in ('getframeinfo', 'getline', 'getlines', 'getsourcelines', 'findsource', 'getsource'):
+                    srcs.add(fn_)
+            if isinstance(x, ast.Name) and depth > 0:
+                for d_ in gdefs_.get(x.id, []):
+                    if isinstance(d_, tuple):          # one element of an unpacked call result
+                        d_ = next((y_ for y_ in d_ if isinstance(y_, ast.AST)), None)
+                    if isinstance(d_, ast.AST):
+                        sources(d_, depth - 1)
+    for a_ in cargs:
+        sources(a_)
+    fresh_api = {s_ for s_ in srcs if s_.split('.')[-1] in ('getframeinfo', 'getsourcelines', 'findsource', 'getsource', 'getinnerframes', 'stack', 'getouterframes')}
+    cached_api = {s_ for s_ in srcs if s_.split('.')[-1] in ('getline', 'getlines')}
+    revalidated = any(isinstance(c_.func, ast.Attribute) and norm(c_.func).endswith('linecache.checkcache') for c_ in shallow_calls(get.node))
+    if not cargs or not (fresh_api or cached_api):
+        raise AnalysisError('__get__: where the classified source line comes from was not recognised (%s)' % sorted(srcs))
+    ok_src = bool(fresh_api) or revalidated
+    run.inst('PROTO.source-line', get, 'classified line comes from %s' % ', '.join(sorted(fresh_api | cached_api)), ok_src,
+             '' if ok_src else ('the line that decides "keep the lock" is read with %s, which serves the text the file had when it was first cached: after the caller\'s module was edited and '
+                                'reloaded, a plain read standing on a line that used to hold an augmented assignment is classified from the stale text, __get__ returns with the lock '
+                                'held, no __set__ follows, and every other thread blocks on the attribute' % ', '.join(sorted(cached_api))), node=cargs[0], obligation=True)
     # acquire dominates the classification
     run.inst('PROTO.keep-lock-branch', get, 'acquire dominates classification', any(g.dominates(a, ctest) for a in acquires),
              'the lock is not held when the line is classified', node=ctest.ast, obligation=True)
